@@ -362,8 +362,15 @@ impl St {
 
   fn op_wait(&mut self, lw: &mut LocalWriter, ctx: &mut Ctx) -> Check {
     if self.wait.as_ref().map_or(false, |w| !w.reported) {
-      // one outstanding wait at a time (the public call is synchronous)
-      return Ok(());
+      // one outstanding wait at a time (the public call is synchronous); the
+      // earlier caller may have timed out and given up, after which the
+      // application calls again
+      if !ctx.ch.chance(1, 2) {
+        return Ok(());
+      }
+      ctx.logf(|| "earlier wait abandoned (caller timed out)".to_string());
+      ctx.count("op.wait_abandoned_then_called_again");
+      self.wait = None;
     }
     // every write issued so far precedes the call
     self.process_commands(lw, ctx)?;
